@@ -119,6 +119,39 @@ def follow(f, word, **kw):
         return REJ
 
 
+WORD_KINDS = {"str": join, "list": list, "tuple": tuple}
+KIND_L = 4                                     # words longer than this are only put in their first spelling
+TARGET_MC = ["s0", "s1", "s2"]                 # multi-character target names of a relabelling
+
+
+def word_kinds(labels):
+    """The ways of spelling a word over `labels`: a string only when every label is one character."""
+    return ["str", "list", "tuple"] if all(len(l) == 1 for l in labels) else ["list", "tuple"]
+
+
+def kind_class(kind, labels):
+    return ("" if kind == "str" else "/word-as-" + kind) + ("" if all(len(l) == 1 for l in labels) else "/multi-character-labels")
+
+
+def check_prefixes(f, word, w, n, cls, who):
+    """initial_accepted_subword / initial_rejected_subword of `word` (the label sequence w in one of its spellings)
+    whose longest accepted prefix from the default start vertex has n labels (oracle)."""
+    p = f.initial_accepted_subword(word)
+    if p != join(w[:n]):
+        return [{"key": "walk/initial_accepted_subword/" + cls,
+                 "msg": "%s: initial_accepted_subword(%r) = %r, oracle %r" % (who, word, p, join(w[:n]))}]
+    r = f.initial_rejected_subword(word)
+    if n < len(w):
+        if r != join(w[:n + 1]):
+            return [{"key": "walk/initial_rejected_subword/" + cls,
+                     "msg": "%s: initial_rejected_subword(%r) = %r, the shortest rejected initial subword is %r (accepted prefix %r)"
+                     % (who, word, r, join(w[:n + 1]), join(w[:n]))}]
+    elif r is not None and r != join(w):
+        return [{"key": "walk/initial_rejected_subword/accepted-word/" + cls,
+                 "msg": "%s: initial_rejected_subword(%r) = %r for an accepted word (None or the word itself expected)" % (who, word, r)}]
+    return []
+
+
 def recurrent_by_cycles(m):
     """Second, structurally different oracle for the recurrent part: v survives iff some
     vertex on a cycle reaches v and v reaches some vertex on a cycle."""
@@ -144,9 +177,10 @@ def recurrent_by_cycles(m):
 # ------------------------------------------------------------------------------------------
 # section 1: walks and enumerators
 # ------------------------------------------------------------------------------------------
-def check_walks(f, m, adj, s, s2, words, L, cls, stats):
+def check_walks(f, m, adj, s, s2, words, L, cls, stats, labels=("a",)):
     """All walk/enumeration queries on f (default start s; explicit start s2)."""
     v = []
+    kinds = word_kinds(labels)
     lang = {}
     for st in {s, s2}:
         lang[st] = [sorted((join(w), e) for (w, e) in O.paths_adj(adj, n, st)) for n in range(L + 1)]
@@ -190,42 +224,40 @@ def check_walks(f, m, adj, s, s2, words, L, cls, stats):
             return v
         stats["t"] += 3
         stats["enum"] += len(exp)
-    # walks
+    # walks: every word in every spelling (string / list / tuple of labels)
     for w in words:
-        ws = join(w)
         end = O.walk_adj(adj, w, s)
         end2 = O.walk_adj(adj, w, s2)
-        stats["t"] += 5
         if end is not None:
             stats["acc"] += 1
-        a = f.accepts(ws)
-        if a is not (end is not None):
-            v.append({"key": "walk/accepts/" + cls,
-                      "msg": "accepts(%r) from default start %r = %r, oracle end %r" % (ws, s, a, end)})
-            return v
-        a = f.accepts(ws, start_vertex=s2)
-        if a is not (end2 is not None):
-            v.append({"key": "walk/accepts(start_vertex)/" + cls,
-                      "msg": "accepts(%r, start_vertex=%r) = %r, oracle end %r" % (ws, s2, a, end2)})
-            return v
-        r = follow(f, ws)
-        if r != (REJ if end is None else end):
-            v.append({"key": "walk/follow_word/" + cls,
-                      "msg": "follow_word(%r) from default start %r = %r, oracle %r" % (ws, s, r, end)})
-            return v
-        r = follow(f, ws, start_vertex=s2)
-        if r != (REJ if end2 is None else end2):
-            v.append({"key": "walk/follow_word(start_vertex)/" + cls,
-                      "msg": "follow_word(%r, start_vertex=%r) = %r, oracle %r" % (ws, s2, r, end2)})
-            return v
-        p = f.initial_accepted_subword(ws)
-        if p != join(O.longest_accepted_prefix(m, w, s)):
-            v.append({"key": "walk/initial_accepted_subword/" + cls,
-                      "msg": "initial_accepted_subword(%r) from %r = %r, oracle %r"
-                      % (ws, s, p, join(O.longest_accepted_prefix(m, w, s)))})
-            return v
-        # called for coverage only: the property does not pin its return value
-        f.initial_rejected_subword(ws)
+        npre = len(O.longest_accepted_prefix(m, w, s))
+        for kind in (kinds if len(w) <= KIND_L else kinds[:1]):
+            ws = WORD_KINDS[kind](w)
+            kc = cls + kind_class(kind, labels)
+            stats["t"] += 6
+            a = f.accepts(ws)
+            if a is not (end is not None):
+                v.append({"key": "walk/accepts/" + kc,
+                          "msg": "accepts(%r) from default start %r = %r, oracle end %r" % (ws, s, a, end)})
+                return v
+            a = f.accepts(ws, start_vertex=s2)
+            if a is not (end2 is not None):
+                v.append({"key": "walk/accepts(start_vertex)/" + kc,
+                          "msg": "accepts(%r, start_vertex=%r) = %r, oracle end %r" % (ws, s2, a, end2)})
+                return v
+            r = follow(f, ws)
+            if r != (REJ if end is None else end):
+                v.append({"key": "walk/follow_word/" + kc,
+                          "msg": "follow_word(%r) from default start %r = %r, oracle %r" % (ws, s, r, end)})
+                return v
+            r = follow(f, ws, start_vertex=s2)
+            if r != (REJ if end2 is None else end2):
+                v.append({"key": "walk/follow_word(start_vertex)/" + kc,
+                          "msg": "follow_word(%r, start_vertex=%r) = %r, oracle %r" % (ws, s2, r, end2)})
+                return v
+            v += check_prefixes(f, ws, w, npre, kc, "default start %r" % (s,))
+            if v:
+                return v
     return v
 
 
@@ -241,7 +273,7 @@ def case_walk(case):
     for i, s in enumerate(V):
         f = build(m, route, s)
         s2 = V[(i + 1) % len(V)]
-        v = check_walks(f, m, adj, s, s2, words, L, cls, stats)
+        v = check_walks(f, m, adj, s, s2, words, L, cls, stats, labels=labels)
         if v:
             break
     return {"v": v, "t": stats["t"], "o": "%d/%d" % (stats["acc"], stats["enum"]), "nt": len(m.E) > 0}
@@ -283,6 +315,20 @@ def check_multiple(f, m, s, labels, Lm, cls, snap, stats, ks=(1, 2, 3, 4, "even"
                           "msg": "k=%r start %r: result.accepts(%r) = %r but the receiver %s %r"
                           % (k, s, chunks, a, "rejects" if end is None else "accepts", join(w))})
                 return v
+            # prefix queries on the k-step automaton: the word is the list / tuple of its k-letter labels
+            nacc = 0
+            while nacc < len(chunks) and O.walk_adj(adj, w[:kk * (nacc + 1)], s) is not None:
+                nacc += 1
+            for kind in ("list", "tuple"):
+                found = check_prefixes(g, WORD_KINDS[kind](chunks), chunks, nacc,
+                                       "%s-result/word-as-%s%s" % (nm, kind, "/multi-character-labels" if kk > 1 else ""),
+                                       "k=%r start %r, word in %d-letter labels" % (k, s, kk))
+                stats["t"] += 2
+                for x in found:
+                    x["key"] = x["key"].replace("walk/", "multiple/", 1)
+                v += found
+                if v:
+                    return v
     return v
 
 
@@ -291,10 +337,11 @@ def injective_maps(labels, target):
         yield dict(zip(labels, img))
 
 
-def check_rename(f, m, route, s, labels, Lr, cls, snap, stats):
+def check_rename(f, m, route, s, labels, Lr, cls, snap, stats, target=TARGET):
     v = []
     V = sorted(m.V, key=repr)
-    for pi in injective_maps(labels, TARGET):
+    kinds = word_kinds(target)[:2]              # string + list, or list + tuple (every spelling: the walks sections)
+    for pi in injective_maps(labels, target):
         mm = m.rename(pi)
         adj2 = O.adjacency(mm)
         g = f.rename_generators(dict(pi), inplace=False)
@@ -324,13 +371,22 @@ def check_rename(f, m, route, s, labels, Lr, cls, snap, stats):
                     v.append({"key": "rename/%s/language-by-enumerate_words" % who,
                               "msg": "map %r from %r: %r, expected letterwise image %r" % (pi, st, got, exp)})
                     return v
-            for w in O.all_words(TARGET, min(Lr, 3) if who == "copy" else 2):
-                a = h.accepts(join(w))
-                stats["t"] += 1
-                if a is not (O.walk_adj(adj2, w, s) is not None):
-                    v.append({"key": "rename/%s/accepts" % who,
-                              "msg": "map %r: accepts(%r) from %r = %r" % (pi, join(w), s, a)})
-                    return v
+            for w in O.all_words(target, min(Lr, 3) if who == "copy" else 2):
+                for kind in kinds:
+                    ws = WORD_KINDS[kind](w)
+                    a = h.accepts(ws)
+                    stats["t"] += 3
+                    if a is not (O.walk_adj(adj2, w, s) is not None):
+                        v.append({"key": "rename/%s/accepts%s" % (who, kind_class(kind, target)),
+                                  "msg": "map %r: accepts(%r) from %r = %r" % (pi, ws, s, a)})
+                        return v
+                    found = check_prefixes(h, ws, w, len(O.longest_accepted_prefix(mm, w, s)), who + kind_class(kind, target),
+                                           "relabelled by %r (%s), start %r" % (pi, who, s))
+                    for x in found:
+                        x["key"] = x["key"].replace("walk/", "rename/", 1)
+                    v += found
+                    if v:
+                        return v
         # and back again, in place
         inv = {b: a for a, b in pi.items()}
         f2.rename_generators(inv, inplace=True)
@@ -420,6 +476,8 @@ def case_ops(case):
             v = check_rlp(f, m, s, ([None] + V) if i == 0 else [None], cls, snap, stats)
         if not v and (i == 0 or case.get("all_starts")):
             v = check_rename(f, m, route, s, labels, min(Lm, 4), cls, snap, stats)
+            if not v and i == 0:       # relabelling to multi-character names: words are lists / tuples of labels
+                v = check_rename(f, m, route, s, labels, min(Lm, 3), cls, snap, stats, target=TARGET_MC)
         if not v and i == 0:
             v = check_recurrent(f, m, route, s, cls, snap, stats)
         if v:
@@ -710,6 +768,12 @@ def apply_op(st, op, v, retained):
         exp = join(O.longest_accepted_prefix(m, op[1], s))
         if got != exp:
             v.append({"key": "history/initial_accepted_subword/" + cls, "msg": "%r -> %r, oracle %r" % (op[1], got, exp)})
+        else:
+            found = check_prefixes(f, tuple(op[1]), list(op[1]), len(O.longest_accepted_prefix(m, op[1], s)),
+                                   cls + kind_class("tuple", st["alphabet"]), "history")
+            for x in found:
+                x["key"] = x["key"].replace("walk/", "history/", 1)
+            v += found
     elif name == "rename":
         pi, inplace = op[1], op[2]
         mm = m.rename(pi)
@@ -876,9 +940,13 @@ def run(ctx):
     ctx.assume("automata are deterministic; exactly one start vertex is set explicitly (automaton_multiple, "
                "initial_accepted_subword and default-start calls read start_vertices)")
     ctx.assume("relabelling maps are injective and defined on every label of the alphabet")
-    ctx.assume("words are strings over single-letter labels; for the k-multiple automaton a word is the list of its k-letter chunks")
+    ctx.assume("a word over single-letter labels is a string, a list or a tuple of labels; over multi-character labels (k-step "
+               "automata, relabelled automata, automata built with such labels) it is a list or a tuple of labels; the prefix "
+               "queries return the concatenation of the labels of the prefix")
     ctx.assume("has_edge, edge_labels and edge_label are queried on every ordered pair of vertices; edge_label may raise ValueError unless there is exactly one edge (documented)")
-    ctx.assume("initial_rejected_subword is called but its return value is not judged (the property does not pin it)")
+    ctx.assume("initial_rejected_subword of a word that is NOT accepted is the longest accepted initial subword plus the next label "
+               "(docstring and code agree); for an accepted word the docstring says None and the code returns the word: either is "
+               "accepted, an exception is not")
     ctx.assume("remove_long_paths(edge_ties=False) is only required to be a spanning tree of shortest-path edges; "
                "vertex sets are compared for recurrent() only (language checks run from every vertex elsewhere)")
     ab, a, abc = ["a", "b"], ["a"], ["a", "b", "c"]
@@ -891,16 +959,28 @@ def run(ctx):
         routes = ["graph", "hidden", "out", "edits"]
         Lw, Lo = 7, 6
     dom = {"(states, labels)": [[k, len(l)] for k, l in sizes], "routes": routes,
-           "start vertex": "every vertex", "words": "all words over the label set, length 0..%d" % Lw}
+           "start vertex": "every vertex", "words": "all words over the label set, length 0..%d" % Lw,
+           "word spelling": "string; also list of labels and tuple of labels for the words of length <= %d" % KIND_L}
     ctx.product("walks-and-enumerators", "checks.c10:case_walk", automaton_cases(sizes, routes, Lw),
                 domains=dom, chunk=32)
+    # automata whose labels have more than one character: words can only be spelled as lists / tuples of labels
+    mc_labels = [["aa", "ab"], ["s0", "s1"], ["x", "yz"], ["a", "ab"]] + ([] if q else [["s0", "s1", "s10"], ["ab", "ba", "b"]])
+    mc_sizes = [(k, l) for l in mc_labels for k in (1, 2)] + ([] if q else [(3, mc_labels[0]), (3, mc_labels[2])])
+    ctx.product("walks-multi-character-labels", "checks.c10:case_walk", automaton_cases(mc_sizes, ["graph", "edits"], 4 if q else 5),
+                domains={"label sets": mc_labels, "states": "1, 2" + ("" if q else " (3 for the first and third label set)"),
+                         "routes": ["graph", "edits"], "start vertex": "every vertex",
+                         "words": "all sequences of labels of length 0..%d, each as a list and (length <= %d) as a tuple" % (4 if q else 5, KIND_L),
+                         "queries": "accepts, follow_word, initial_accepted_subword, initial_rejected_subword, the enumerators"}, chunk=32)
     if not q:
         ctx.product("walks-3-states-3-labels", "checks.c10:case_walk", automaton_cases([(3, abc)], ["graph"], 3),
                     domains={"(states, labels)": [[3, 3]], "routes": ["graph"], "start vertex": "every vertex",
                              "words": "all words over the label set, length 0..3"}, chunk=256)
     dom2 = dict(dom)
     dom2.update({"words": "length 0..%d (multiples: at least 2 chunks)" % Lo, "k": [1, 2, 3, 4, "even"],
-                 "relabellings": "every injective map into {a,b,c}", "roots": "every vertex and the default",
+                 "relabellings": "every injective map into {a,b,c} (words as strings and lists) and, for the first start vertex, into {s0,s1,s2} "
+                                 "(words as lists and tuples of labels): edges, enumeration, accepts and the prefix queries",
+                 "k-step automata": "accepts and the prefix queries on every word given as list / tuple of k-letter labels",
+                 "roots": "every vertex and the default",
                  "edge_ties": [True, False]})
     ctx.product("operations", "checks.c10:case_ops", automaton_cases(sizes, routes, Lo, all_starts=not q),
                 domains=dom2, chunk=16)
